@@ -385,3 +385,67 @@ class CaseEq:
         return implies(eq_prim(other), result == False)
 
     raises_only = ()
+
+
+# ---- C20: == is an equivalence on parser-produced trees -------------------------------------------------------------
+@spec
+def pp_val(v) -> bool:
+    """argument, index and count values as the parser produces them: numbers; lets (kind INT or FLOAT); macro parameters
+    (untyped - Jaqal cannot annotate them); qubit references indexed by one of those"""
+    if is_int(v) or is_float(v):
+        return True
+    if type_is(v, Constant):
+        return is_str(v._name) and (is_int(v._value) or is_float(v._value)) and (v._kind == ParamType.INT or v._kind == ParamType.FLOAT)
+    if type_is(v, Parameter):
+        return is_str(v._name) and v._kind == ParamType.NONE
+    if type_is(v, NamedQubit):
+        return (is_str(v._name) and (type_is(v._alias_from, Register) or type_is(v._alias_from, Parameter)) and is_str(v._alias_from._name)
+                and (is_int(v._alias_index) or ((type_is(v._alias_index, Constant) or type_is(v._alias_index, Parameter)) and pp_val(v._alias_index))))
+    return False
+
+
+@spec
+def pp_tree(o) -> bool:
+    """parser-produced statement trees"""
+    if type_is(o, LoopStatement):
+        return pp_val(o._iterations) and type_is(o._statements, BlockStatement) and pp_tree(o._statements)
+    if type_is(o, BlockStatement):
+        return (isinstance(o._statements, list) and is_bool(o._parallel) and is_bool(o._subcircuit) and pp_val(o._iterations)
+                and forall_range(len(o._statements), lambda k: pp_tree(o._statements[k])))
+    return (type_is(o, GateStatement) and isinstance(o._parameters, dict) and isinstance(o._gate_def, AbstractGate) and is_str(o._gate_def._name)
+            and forall_range(dict_len(o._parameters), lambda j: pp_val(dict_val_at(o._parameters, j))))
+
+
+@lemma(props=["C20"])
+class SteqReflexive:
+    """structural equality is reflexive on parser-produced trees and values (what every __eq__ is proved to compute): by
+    induction over the tree"""
+
+    def requires(a):
+        return pp_tree(a) or pp_val(a)
+
+    def claim(a):
+        return steq(a, a)
+
+    def trigger(a):
+        return steq(a, a)
+
+    induction = ("a",)
+    components = ("_statements", "_iterations", "_alias_index", "_parameters")
+
+
+@lemma(props=["C20"])
+class SteqSymmetric:
+    """structural equality is symmetric on parser-produced trees and values: by simultaneous induction over both trees"""
+
+    def requires(a, b):
+        return (pp_tree(a) or pp_val(a)) and (pp_tree(b) or pp_val(b))
+
+    def claim(a, b):
+        return steq(a, b) == steq(b, a)
+
+    def trigger(a, b):
+        return steq(a, b)
+
+    induction = ("a", "b")
+    components = ("_statements", "_iterations", "_alias_index", "_parameters")
